@@ -98,17 +98,17 @@ theorem exec_copyPatch_ref {w : World} {cfg : Cfg} {b W K : Nat} {okc : Call →
               show denote st3.cells (K + W + 1) (.ref st.cells.length) = some (.dict cfO)
               rw [hl2, denote_ref_cell hinv2.cell]
               simp only [cellDen, hinv2.den, Option.map_some]
-  · intro hr htot
-    unfold exec at hr
-    simp only [Bool.false_eq_true, if_false, Heap.bind, hT] at hr
+  · intro hr htot hu
+    unfold exec at hr hu
+    simp only [Bool.false_eq_true, if_false, Heap.bind, hT] at hr hu
     cases hrun : runPatches rec det st.cells.length patches c0 false
         { st with cells := st.cells ++ [.dict c0], raw := st.cells.length :: st.raw } with
     | mk rr st2 =>
-      rw [hrun] at hrp hr
-      simp only at hrp hr
+      rw [hrun] at hrp hr hu
+      simp only at hrp hr hu
       cases rr with
       | none =>
-        simp only [copyPatchPure, hrp.2 rfl htot, Option.map_none, ite_self]
+        simp only [copyPatchPure, hrp.2.1 rfl htot hu, Option.map_none, ite_self]
       | some cf =>
         obtain ⟨cfl, ff⟩ := cf
         simp only at hr
@@ -117,7 +117,8 @@ theorem exec_copyPatch_ref {w : World} {cfg : Cfg} {b W K : Nat} {okc : Call →
           have := ((hrp.1 cfl true rfl).2 rfl)
           rcases this with h | h
           · simp at h
-          · simp only [copyPatchPure, h htot, Option.map_none, ite_self]
+          · simp only [Bool.true_or, if_true, Heap.raise] at hu
+            simp only [copyPatchPure, h htot hu, Option.map_none, ite_self]
         | false =>
           cases doomed with
           | true => simp only [copyPatchPure, if_true]
